@@ -115,7 +115,7 @@ func runC01(env *Env, tier string) {
 		c.InChanCap = ch.Choose("inchancap", 4)
 	}
 	s := StartSut(env, c)
-	a := NewAdv(s, hb, AdvOpts{AllowCuts: true, AllowSends: true, RejectApp: ch.Chance("rejectapp", 1, 2)})
+	a := NewAdv(s, hb, AdvOpts{AllowCuts: true, AllowSends: true, AppTypes: true, RejectApp: ch.Chance("rejectapp", 1, 2)})
 	steps := 15 + ch.Choose("steps", 136)
 	for i := 0; i < steps && !env.Failed(); i++ {
 		a.Step()
